@@ -705,7 +705,7 @@ theorem Det.scipyPass (pl) (w : World) (hw : w.fault = none) (p : Problem) (ho :
               | Pass.raised e => Res.exc e
               | Pass.done s => Res.ok (some s)
               | Pass.retry => Res.ok none)
-        (evs := warn ++ ([] ++ ([] ++ ([] ++ ([Event.minimizeCall (minArgs p method (hessFlag o method))] ++ ([] ++
+        (evs := warn ++ ([] ++ ([] ++ ([] ++ ([Event.minimizeCall (minArgs p o method (hessFlag o method))] ++ ([] ++
               match postPass (p.cfg o) method (if (pass == 0) = true then w.r1 else w.r2) with
               | Pass.retry => [Event.warnRetry]
               | _ => []))))))
